@@ -10,7 +10,7 @@ CONSTANT TraceFile
 Trace == ndJsonDeserialize(TraceFile)
 
 VARIABLES l, log      \* position in the trace; the visible events of the current scenario (history variable)
-allvars == <<cfg, pol, now, xs, th, envi, l, log>>
+allvars == <<cfg, pol, now, xs, th, envi, acqc, l, log>>
 
 Line == Trace[l]
 \* a label is explained by the current line: same event, same instant, every field of the label present and equal
@@ -23,7 +23,7 @@ NormDesc(d) ==
   CASE d.k = "retry" -> [d EXCEPT !.h = SetOf(d.h), !.a = SetOf(d.a)]
     [] d.k = "fb" -> [d EXCEPT !.h = SetOf(d.h)]
     [] d.k = "cb" -> [d EXCEPT !.h = SetOf(d.h)]
-    [] d.k = "hg" -> [d EXCEPT !.c = SetOf(d.c)]
+    [] d.k = "hg" -> [d EXCEPT !.c = SetOf(d.c)]      \* d.delays stays a sequence
     [] OTHER -> d
 NormCfg(c) == [c EXCEPT !.stack = [j \in 1..Len(c.stack) |-> NormDesc(c.stack[j])]]
 
@@ -38,7 +38,7 @@ InitPolOf(c) ==
 TraceReset ==
   /\ l <= Len(Trace) /\ Line.ev = "Config"
   /\ LET c == NormCfg(Line.cfg) IN
-     /\ cfg' = c /\ pol' = InitPolOf(c) /\ now' = 0 /\ envi' = 1 /\ th' = <<>>
+     /\ cfg' = c /\ pol' = InitPolOf(c) /\ now' = 0 /\ envi' = 1 /\ th' = <<>> /\ acqc' = {}
      /\ xs' = [x \in 1..c.nx |-> Dummy]
   /\ l' = l + 1 /\ log' = <<>>
 
@@ -50,8 +50,8 @@ TraceAdvance == Advance /\ UNCHANGED <<l, log>>
 TraceAdvanceTo ==
   /\ l <= Len(Trace) /\ "t" \in DOMAIN Line /\ Line.t > now
   /\ ~Runnable(St) /\ ~EnvDue(St) /\ (IF Pending = {} THEN TRUE ELSE Line.t < MinOf(Pending))
-  /\ now' = Line.t /\ UNCHANGED <<cfg, pol, xs, th, envi, l, log>>
-TraceObserve == \E lab \in ObsLabels(St) : Match(lab) /\ l' = l + 1 /\ log' = Append(log, Line) /\ UNCHANGED <<cfg, pol, now, xs, th, envi>>
+  /\ now' = Line.t /\ UNCHANGED <<cfg, pol, xs, th, envi, acqc, l, log>>
+TraceObserve == \E lab \in ObsLabels(St) : Match(lab) /\ l' = l + 1 /\ log' = Append(log, Line) /\ UNCHANGED <<cfg, pol, now, xs, th, envi, acqc>>
 
 ----------------------------------------------------------------------------
 (* ---- property predicates over the visible events of one finished scenario (from the property texts) ---- *)
@@ -89,7 +89,7 @@ C06_OK ==
       LET starts == Cardinality({i \in 1..n : EvOf(i) = "FnStart"})
           ends == Cardinality({i \in 1..n : EvOf(i) = "FnEnd"})
           \* a standalone permit is held from the return of a successful TryAcquirePermit until ReleasePermit is called
-          taken == Cardinality({i \in 1..n : EvOf(i) = "BhTake" /\ log[i].ok}) - Cardinality({i \in 1..n : EvOf(i) = "BhReleaseCall"})
+          taken == Cardinality({i \in 1..n : EvOf(i) \in {"BhTake", "BhAcquired"} /\ log[i].ok}) - Cardinality({i \in 1..n : EvOf(i) = "BhReleaseCall"})
           \* only meaningful when every invocation runs under the bulkhead (it is in the stack of every execution)
       IN starts - ends + taken <= cfg.bhmax[id]
 
@@ -124,17 +124,36 @@ C15_OK ==
     /\ \A i \in isdone \cup closed \cup gets : dones # {} /\ i > First(dones)
     /\ \A i \in closed : \A j \in {jj \in Idx : jj > i /\ EvOf(jj) = "IsDone" /\ OfX(jj, x)} : log[j].v
 
-\* C09: a hedged execution (hedge outermost) starts at most maxHedges+1 attempts and never starts hedge k before k delays
+\* C09: a hedged execution (hedge outermost, nothing re-applying it) starts at most maxHedges+1 attempts, never starts hedge k
+\* before the first k hedge delays have elapsed, and returns a result produced by an attempt: a cancel-matching one when one
+\* was produced at an earlier instant than every non-matching candidate, else one delivered after all attempts finished
+HedgeDelayAt(p, j) == IF p.delays = <<>> THEN p.delay ELSE p.delays[(j % Len(p.delays)) + 1]
+RECURSIVE SumDelays(_, _)
+SumDelays(p, k) == IF k = 0 THEN 0 ELSE SumDelays(p, k - 1) + HedgeDelayAt(p, k - 1)
 C09_OK ==
-  (Len(cfg.stack) >= 1 /\ cfg.stack[1].k = "hg") =>
+  (Len(cfg.stack) = 1 /\ cfg.stack[1].k = "hg") =>
     \A x \in 1..cfg.nx :
       LET p == cfg.stack[1]
           st == {i \in Idx : EvOf(i) = "Start" /\ OfX(i, x)}
-          hs == {i \in Idx : EvOf(i) = "OnHedge" /\ OfX(i, x)} IN
-      st # {} =>
-        /\ Cardinality(hs) <= p.maxh
-        /\ \A i \in hs : log[i].t >= log[First(st)].t + p.delay * Cardinality({j \in hs : j <= i})
-        /\ (~HasStack("retry") => Cardinality({i \in Idx : EvOf(i) = "FnStart" /\ OfX(i, x)}) <= p.maxh + 1)
+          hs == {i \in Idx : EvOf(i) = "OnHedge" /\ OfX(i, x)}
+          ends == {i \in Idx : EvOf(i) = "FnEnd" /\ OfX(i, x)}
+          rets == {i \in Idx : EvOf(i) = "Return" /\ OfX(i, x)}
+          cancelled == \E i \in Idx : EvOf(i) \in {"CtxCancel", "AsyncCancel"}
+          CMatch(i) == (p.c = {}) \/ AbortsCode(p.c, log[i].r, log[i].e) IN
+      (st # {} /\ rets # {} /\ ~cancelled) =>
+        LET R == log[First(rets)]
+            before == {i \in ends : i < First(rets)}
+            winners == {i \in before : log[i].r = R.r /\ log[i].e = R.e} IN
+        /\ Cardinality(hs) <= p.maxh                                                            \* AttemptBound
+        /\ Cardinality({i \in Idx : EvOf(i) = "FnStart" /\ OfX(i, x)}) <= p.maxh + 1
+        /\ \A i \in hs : log[i].t >= log[First(st)].t + SumDelays(p, Cardinality({j \in hs : j <= i}))   \* Spacing
+        /\ winners # {}                                                                         \* WinnerIsReal
+        /\ \A i \in hs : i < First(rets) \/ log[i].t = R.t                                       \* no hedge after acceptance (same instant allowed)
+        /\ (\E i \in before : CMatch(i) /\ log[i].t < R.t) =>                                   \* a matching result produced strictly earlier
+              \E i \in winners : CMatch(i)
+        \* (a matching and a final non-matching result produced at the same instant: either may be delivered - the counter
+        \*  and the sent-flag are two atomics, and "as soon as" does not order simultaneous results)
+        /\ ((~\E i \in winners : CMatch(i)) => Cardinality(before) = p.maxh + 1)                \* OtherwiseAfterAll
 
 \* the scenario is over: nothing can step, nothing is pending; the harness' observations must agree with the model
 AllEnded == \A t \in 1..Len(th) : th[t].mode = "end"
@@ -151,15 +170,15 @@ TraceQuiesce ==
   /\ (IF C08_OK THEN TRUE ELSE PrintT(<<"PROPVIOL", "C08", l>>))
   /\ (IF C06_OK THEN TRUE ELSE PrintT(<<"PROPVIOL", "C06", l>>))
   /\ (IF C09_OK THEN TRUE ELSE PrintT(<<"PROPVIOL", "C09", l>>))
-  /\ l' = l + 1 /\ UNCHANGED <<cfg, pol, now, xs, th, envi, log>>
+  /\ l' = l + 1 /\ UNCHANGED <<cfg, pol, now, xs, th, envi, acqc, log>>
 
 TraceInit ==
-  /\ l = 1 /\ now = 0 /\ envi = 1 /\ th = <<>> /\ xs = <<>> /\ pol = <<>>
+  /\ l = 1 /\ now = 0 /\ envi = 1 /\ th = <<>> /\ xs = <<>> /\ pol = <<>> /\ acqc = {}
   /\ cfg = [stack |-> <<>>, fns |-> <<>>, env |-> <<>>, nx |-> 0, tld |-> 0, asyncFix |-> FALSE, bhmax |-> <<>>, fnDefault |-> [d |-> 0, r |-> "R2", e |-> Nil, coop |-> FALSE]]
   /\ TLCSet(1, 1) /\ log = <<>>
 
 \* every line explained: say so (the orchestrator looks for this line) and stop this branch
-TraceDone == l = Len(Trace) + 1 /\ PrintT("TRACE-ACCEPTED") /\ l' = l + 1 /\ UNCHANGED <<cfg, pol, now, xs, th, envi, log>>
+TraceDone == l = Len(Trace) + 1 /\ PrintT("TRACE-ACCEPTED") /\ l' = l + 1 /\ UNCHANGED <<cfg, pol, now, xs, th, envi, acqc, log>>
 
 TraceNext == TraceReset \/ TraceSilentThread \/ TraceVisibleThread \/ TraceEnv \/ TraceAdvance \/ TraceAdvanceTo \/ TraceObserve \/ TraceQuiesce \/ TraceDone
 TraceSpec == TraceInit /\ [][TraceNext]_allvars
